@@ -115,6 +115,17 @@ def grammar_of_path(p, fn, m, wh, direction):
                 pass
         elif e.kind == "memcpy":
             d, s = field_name(e.ptr, fn, m, wh), field_name(e.val, fn, m, wh) if e.val else None
+            if d and s is None and e.val is not None and ptr_parts(e.val)[0][0] == "g":
+                # copied from a constant that an earlier memcmp on this path found equal to a field: same bytes as that field
+                for c, taken, inst in p.conds:
+                    cc = strip_casts(c)
+                    if cc[0] == "icmp" and cc[1] in ("eq", "ne") and (cc[1] == "eq") == bool(taken) and \
+                            any(x[0] == "c" and x[2] == 0 for x in (cc[2], cc[3])):
+                        cm = strip_casts(cc[2] if cc[3][0] == "c" else cc[3])
+                        if cm[0] == "call" and cm[1] == "memcmp" and len(cm[2]) == 3 and cm[2][2] == e.extra:
+                            for a_, b_ in ((cm[2][0], cm[2][1]), (cm[2][1], cm[2][0])):
+                                if a_ == e.val and field_name(b_, fn, m, wh) in label:
+                                    s = field_name(b_, fn, m, wh)
             if d and s and s in label:
                 label[d] = label[s]
     # final names: an item is named by the field that holds it at the end
